@@ -24,6 +24,12 @@ for p in props:
         })
     else:
         na.append({"property_id": pid, "reason": mm.NOT_YET.get(pid, "check not built yet in this tree; see DESIGN.md section 10 for the build order")})
+try:
+    out = subprocess.run(["git", "-C", "/repo", "log", "--grep", "^verif hook", "--format=%h %s"], stdout=subprocess.PIPE).stdout.decode().strip().splitlines()
+    if out:
+        mm.HOOKS["source_commits"] = out[::-1]
+except Exception:
+    pass
 man = {
     "version": 1,
     "setup_cmd": "bin/setup",
